@@ -592,6 +592,19 @@ func (x *X) doCall(op tr.Line) tr.Line {
 			if err == nil && !insd {
 				x.fail("Stop", "nil-before-shutdown-complete", "Stop returned nil while inShutdown was not set")
 			}
+			if err == nil {
+				// "Stop returns nil only after the engine has fully shut down": judged on the connections, not on
+				// the engine's own flag -- every opened connection has had its OnClose and no callback is running
+				x.mu.Lock()
+				for _, cr := range x.conns {
+					if cr.opened > cr.closed || cr.entered > cr.done {
+						x.fails = append(x.fails, [3]string{"Stop", "nil-before-connections-closed",
+							fmt.Sprintf("Stop returned nil while connection %d was still open or inside a callback (opened=%d closed=%d entered=%d done=%d)", cr.cid, cr.opened, cr.closed, cr.entered, cr.done)})
+						break
+					}
+				}
+				x.mu.Unlock()
+			}
 			if fn == "stop" {
 				if c == "ctxerr" && !expired && ctx.Err() == nil {
 					x.fail("Stop", "ctxerr-with-live-context", "")
